@@ -110,11 +110,14 @@ def oneshot_main(args):
     import pgradd                      # noqa
     import pgradd.ThermoChem           # noqa
     mod = load_module(args.prop)
-    if hasattr(mod, 'worker_init'):
+    if hasattr(mod, 'worker_init') and args.mode != 'fresh':
         mod.worker_init(args.prop, 'replay')
     with open(args.spec) as f:
         doc = json.load(f)
-    spec = doc['spec']
+    spec = doc.get('spec')
+    if args.mode == 'fresh':
+        print('FRESH ' + mod.fresh_value(doc))
+        return 0
     if args.mode == 'shrink':
         small = mod.shrink(spec, doc['violation']['signature'])
         viols, dig, info = mod.execute_spec(small)
@@ -213,6 +216,15 @@ def coordinator(args):
     except RuntimeError as exc:
         log('HARNESS ERROR: %s' % exc)
         return 2
+    post_extra = {}
+    if hasattr(mod, 'post_check'):
+        try:
+            more, post_extra = mod.post_check(
+                primary, tier, lambda docs: run_fresh(prop, docs))
+        except RuntimeError as exc:
+            log('HARNESS ERROR: %s' % exc)
+            return 2
+        coverage.update(post_extra)
     if hasattr(mod, 'cross_cell'):
         extra = mod.cross_cell(dict((hs, cells[hs]['results'])
                                     for hs in hash_seeds), prop)
@@ -286,6 +298,41 @@ def coordinator(args):
     return rc
 
 
+def run_fresh(prop, docs, hash_seed=7, parallel=8):
+    """Compute each doc in a genuinely new interpreter (fresh-process
+    oracle without the fork shortcut)."""
+    procs = []
+    outs = [None] * len(docs)
+    files = []
+    for i, doc in enumerate(docs):
+        fd, path = tempfile.mkstemp(prefix='pgradd-verif-fresh-',
+                                    suffix='.json')
+        with os.fdopen(fd, 'w') as f:
+            json.dump(doc, f)
+        files.append(path)
+    try:
+        i = 0
+        running = []
+        while i < len(docs) or running:
+            while i < len(docs) and len(running) < parallel:
+                cmd = [PY, os.path.join(HERE, 'run_check.py'), '--oneshot',
+                       'fresh', prop, '--spec', files[i]]
+                p = subprocess.Popen(cmd, env=child_env(hash_seed), cwd=HERE,
+                                     stdout=subprocess.PIPE,
+                                     stderr=subprocess.DEVNULL, text=True)
+                running.append((i, p))
+                i += 1
+            j, p = running.pop(0)
+            out, _ = p.communicate(timeout=300)
+            for line in out.splitlines():
+                if line.startswith('FRESH '):
+                    outs[j] = line.split()[1]
+    finally:
+        for path in files:
+            os.unlink(path)
+    return outs
+
+
 def report_violation(prop, v, seed, args):
     """Minimise in a fresh interpreter, write the replay file."""
     from sim import core
@@ -356,7 +403,7 @@ def main():
     ap.add_argument('--replay')
     ap.add_argument('--setup', action='store_true')
     ap.add_argument('--cell', action='store_true')
-    ap.add_argument('--oneshot', dest='mode', choices=['shrink', 'replay'])
+    ap.add_argument('--oneshot', dest='mode', choices=['shrink', 'replay', 'fresh'])
     ap.add_argument('--spec')
     ap.add_argument('--out')
     ap.add_argument('--subset', type=float, default=1.0)
